@@ -200,6 +200,65 @@ fn check_grl_steps(steps: &[GStep], st: &mut Stats) {
     }
 }
 
+fn clone_case_json(steps: &[IStep]) -> Json {
+    json!({"kind": "sequential-with-clones", "steps": steps.iter().map(|s| s.text()).collect::<Vec<_>>()})
+}
+
+/// 4..=12 steps over up to 3 instances: operations on the original, a clone (1-2 per history),
+/// then operations on both sides.
+fn gen_clone_steps(rng: &mut Rng) -> Vec<IStep> {
+    let n = 4 + rng.below(9);
+    let nn = 2 + rng.below(3);
+    let mut insts = 1u8;
+    let mut steps = Vec::new();
+    for i in 0..n {
+        if insts < 3 && i >= 1 && rng.chance(1, 4) {
+            steps.push(IStep::Clone(rng.below(insts as usize) as u8));
+            insts += 1;
+            continue;
+        }
+        let k = rng.below(insts as usize) as u8;
+        let nm = rng.below(nn) as u8;
+        let op = match rng.below(100) {
+            0..=49 => Op::Add { n: nm, s: pick_sal(rng) },
+            50..=74 => Op::Remove { n: nm },
+            75..=94 => Op::Enable { n: nm, on: rng.bool() },
+            _ => Op::Clear,
+        };
+        steps.push(IStep::Do(k, op));
+    }
+    steps
+}
+
+/// Shrink a failing clone history by dropping steps (instances keep their numbers only if no
+/// clone step is dropped, so clone steps are kept) and report it.
+fn report_clone_steps(steps: &[IStep], clause: &str, st: &mut Stats) {
+    let mut cur: Vec<IStep> = steps.to_vec();
+    let fails = |s: &[IStep]| matches!(run_instances(s, 4).0, Some((ref c, _, _)) if c == clause);
+    let mut changed = true;
+    while changed {
+        changed = false;
+        let mut i = 0;
+        while i < cur.len() {
+            if matches!(cur[i], IStep::Clone(_)) {
+                i += 1;
+                continue;
+            }
+            let mut cand = cur.clone();
+            cand.remove(i);
+            if fails(&cand) {
+                cur = cand;
+                changed = true;
+            } else {
+                i += 1;
+            }
+        }
+    }
+    if let (Some((cl, cause, detail)), _) = run_instances(&cur, 4) {
+        st.violation(violation(&cl, &cause, &detail, clone_case_json(&cur)));
+    }
+}
+
 fn seq_nontrivial(o: &SeqObs) -> bool {
     o.max_rules >= 2 && (o.rejected_duplicates + o.missing_name_ops > 0 || o.ok_changes > o.max_rules as u64)
 }
@@ -445,6 +504,30 @@ impl C15 {
                 if reported < MAX_REPORTED_PER_SHARD {
                     reported += 1;
                     report_seq_names(&ops, &clause, WIDE_NAMES, st);
+                }
+            }
+        }
+        // histories over a knowledge base and its clones
+        let clone_per = cli.n(4_000, 150_000);
+        for _ in 0..clone_per {
+            if cli.expired() {
+                break;
+            }
+            let steps = gen_clone_steps(&mut rng);
+            st.eval();
+            st.count("seq_histories_with_clones");
+            let (f, o) = run_instances(&steps, 4);
+            record_seq_obs(&o, st);
+            if steps.iter().filter(|s| matches!(s, IStep::Clone(_))).count() > 0 && o.ok_changes >= 3 {
+                if st.distinct.len() < CHILD_HASH_CAP {
+                    st.nontrivial(hash_of(&steps));
+                }
+            }
+            if let Some((clause, _, _)) = f {
+                st.count("seq_failing_sequences");
+                if reported < MAX_REPORTED_PER_SHARD {
+                    reported += 1;
+                    report_clone_steps(&steps, &clause, st);
                 }
             }
         }
@@ -737,7 +820,7 @@ impl Check for C15 {
         "C15"
     }
     fn rule(&self) -> String {
-        "sequential, EXHAUSTIVE: every sequence of length 1..=5 (quick) / 1..=6 (thorough) over the 25 mutating operations {add 4 names x 3 saliences, remove x4, enable x4, disable x4, clear}: return value and version checked after every operation, every read view (get_rule for all 4 names, get_rules, get_rule_names, rule_count, get_rules_by_salience+get_rule_by_index, get_statistics, version) compared with the ordered-list+version model after the last one; sequential, SAMPLED (saliences also i32::MIN / i32::MAX, 1 add in 6): random sequences of length 6..=8 (1 in 8: 9..=16) over 2-4 names with every view compared after every operation; plus 'wide' random sequences of 30..=90 operations over 48 names (beyond the stated 4-name bound; long lists with many equal saliences), views compared after the last operation; plus random sequences of 3..=8 steps over 3-4 names in which a third of the steps load a batch of 2-3 rules through add_rules_from_grl (added one by one; the first duplicate fails the call and what was added before it stays), every view compared after every step. A sequential case is non-trivial when at least 2 rules were stored at some point and it contains an operation other than a first-time add (rejected duplicate, missing-name operation, removal, enable/disable, clear); distinct by operation sequence (length>=5 exhaustive cases are counted, not hashed). Concurrent, SAMPLED: random programs of 3 threads x 4 operations (all ten operation kinds, 2-3 names, 0-2 set-up adds) on one Arc<KnowledgeBase> under seeded yields/sleeps at the library's schedule points and before every call; each recorded history (client-side call/return stamps from one atomic clock) is checked for linearizability (WGL search memoised on (linearised set, model state), step cap => inconclusive). A concurrent history is non-trivial when operations of different threads overlapped in real time and a worker-thread operation changed the store; distinct by recorded history. Concurrent, WIDE (beyond the stated 4-name bound): 1 writer thread running a seeded script of 1500 (quick) / 4000 (thorough) add / remove / enable / disable operations (hot rules entering in front, in the middle, at the end of a salience level and at the back; permanent rules removed and put back) on a knowledge base of 65..520 permanent rules while 3 reader threads call get_rules, get_rules_snapshot, get_rule_names, rule_count, get_statistics and get_rule; every answer must equal the view of one of the model states S_lo..S_hi (lo = writer operations finished before the call, hi = started before the return; exact for a single writer); every other run paces the writer to one operation per completed read (narrow intervals); half the rounds under the seeded sleeps at the library's schedule points. Thorough adds the same generator under Miri many-seeds (64 scheduler seeds x 20 histories) and a ThreadSanitizer build (8 processes x 5000 histories).".into()
+        "sequential, EXHAUSTIVE: every sequence of length 1..=5 (quick) / 1..=6 (thorough) over the 25 mutating operations {add 4 names x 3 saliences, remove x4, enable x4, disable x4, clear}: return value and version checked after every operation, every read view (get_rule for all 4 names, get_rules, get_rule_names, rule_count, get_rules_by_salience+get_rule_by_index, get_statistics, version) compared with the ordered-list+version model after the last one; sequential, SAMPLED (saliences also i32::MIN / i32::MAX, 1 add in 6): random sequences of length 6..=8 (1 in 8: 9..=16) over 2-4 names with every view compared after every operation; plus 'wide' random sequences of 30..=90 operations over 48 names (beyond the stated 4-name bound; long lists with many equal saliences), views compared after the last operation; plus random sequences of 3..=8 steps over 3-4 names in which a third of the steps load a batch of 2-3 rules through add_rules_from_grl (added one by one; the first duplicate fails the call and what was added before it stays), every view compared after every step; plus random histories of 4..=12 steps over a knowledge base and 1-2 clones of it (`clone()` of any instance, then add / remove / enable / clear on either side), every view of EVERY instance compared with that instance's model after every step. A sequential case is non-trivial when at least 2 rules were stored at some point and it contains an operation other than a first-time add (rejected duplicate, missing-name operation, removal, enable/disable, clear); distinct by operation sequence (length>=5 exhaustive cases are counted, not hashed). Concurrent, SAMPLED: random programs of 3 threads x 4 operations (all ten operation kinds, 2-3 names, 0-2 set-up adds) on one Arc<KnowledgeBase> under seeded yields/sleeps at the library's schedule points and before every call; each recorded history (client-side call/return stamps from one atomic clock) is checked for linearizability (WGL search memoised on (linearised set, model state), step cap => inconclusive). A concurrent history is non-trivial when operations of different threads overlapped in real time and a worker-thread operation changed the store; distinct by recorded history. Concurrent, WIDE (beyond the stated 4-name bound): 1 writer thread running a seeded script of 1500 (quick) / 4000 (thorough) add / remove / enable / disable operations (hot rules entering in front, in the middle, at the end of a salience level and at the back; permanent rules removed and put back) on a knowledge base of 65..520 permanent rules while 3 reader threads call get_rules, get_rules_snapshot, get_rule_names, rule_count, get_statistics and get_rule; every answer must equal the view of one of the model states S_lo..S_hi (lo = writer operations finished before the call, hi = started before the return; exact for a single writer); every other run paces the writer to one operation per completed read (narrow intervals); half the rounds under the seeded sleeps at the library's schedule points. Thorough adds the same generator under Miri many-seeds (64 scheduler seeds x 20 histories) and a ThreadSanitizer build (8 processes x 5000 histories).".into()
     }
     fn assumptions(&self) -> Vec<String> {
         vec![
@@ -745,6 +828,7 @@ impl Check for C15 {
             "'the rule most recently added under that name' is observed through a unique description stamped on every added rule".into(),
             "real-time order of a concurrent history = order of client-side stamps taken immediately before the call and immediately after the return from one SeqCst atomic counter (sound: an operation's effect lies between its stamps)".into(),
             "get_rules_by_salience+get_rule_by_index is two calls and is compared only sequentially".into(),
+            "clone(): the clone is another knowledge base holding the rules the original lists at that moment, in that order; afterwards each instance follows its own operations only (an operation on one must not show in any view of the other); the clone's version is taken as observed and must grow from there".into(),
             "a schedule-dependent violation is replayed by re-executing its program up to 30000 times under perturbation (re-execution, not re-judging the recorded history)".into(),
         ]
     }
@@ -802,6 +886,15 @@ impl Check for C15 {
                 };
                 let n_names = case["names"].as_u64().unwrap_or(4) as usize;
                 match run_seq_names(&ops, true, n_names.clamp(4, 64)) {
+                    (Some((cl, cause, detail)), _) => vec![violation(&cl, &cause, &detail, case.clone())],
+                    (None, _) => vec![],
+                }
+            }
+            Some("sequential-with-clones") => {
+                let Some(steps) = case["steps"].as_array().and_then(|a| a.iter().map(|x| IStep::parse(x.as_str()?)).collect::<Option<Vec<IStep>>>()) else {
+                    return bad("cannot decode steps");
+                };
+                match run_instances(&steps, 4) {
                     (Some((cl, cause, detail)), _) => vec![violation(&cl, &cause, &detail, case.clone())],
                     (None, _) => vec![],
                 }
